@@ -103,7 +103,7 @@ func (n *ncsStub) roundTrip(req *http.Request) (*http.Response, error) {
 		return nil, req.Context().Err()
 	case "slow":
 		n.w.sim.Stats["fault.ncs_slow"]++
-		simrt.Sleep(time.Duration(1+n.w.netr.Intn(2000)) * time.Millisecond)
+		simrt.Sleep(time.Duration(1+n.w.netr.Intn(9000)) * time.Millisecond)
 	}
 	n.Posts = append(n.Posts, ncsPost{At: n.w.sim.Now(), Body: body, Path: req.URL.Path})
 	n.w.sim.Logf("ncs post %d bytes", len(body))
